@@ -13,14 +13,14 @@ MInit == HInit /\ sstate = "listen" /\ budget = 2
 \* the conformant client: what it sends next given what it has processed
 ClientSend ==
   \/ /\ cver = 0 /\ \E d \in IDs : ClientInitial(ClientVersions[1], d)
-  \/ /\ cver # 0 /\ ~vnUsed /\ ~rcvdFirst /\ cver \notin vnOffer /\ \E v \in vnOffer \cap CV, d \in IDs : ClientInitial(v, d)
+  \/ /\ cver # 0 /\ ~vnUsed /\ ~rcvdFirst /\ \E v \in vnOffer \cap CV, d \in IDs : ClientInitial(v, d)
   \/ /\ cver # 0 /\ ~retryUsed /\ ~rcvdFirst /\ \E d \in retryIDs : ClientInitial(cver, d)
   \/ /\ cver # 0 /\ \E d \in srvIDs \cup {cdcid} : ClientInitial(cver, d)
 Server ==
   \/ /\ cver # 0 /\ cver \notin ServerVersions /\ DeliverVN(ServerVersions) /\ UNCHANGED <<sstate, budget>>
   \/ /\ cver \in ServerVersions /\ NeedRetry /\ sstate = "listen" /\ ~retryUsed
      /\ \E r \in IDs : r # cdcid /\ DeliverRetry(r, TRUE) /\ sstate' = "retrySent" /\ UNCHANGED budget
-  \/ /\ cver \in ServerVersions /\ (NeedRetry => retryUsed) /\ \E s \in IDs : DeliverServerPacket(s) /\ sstate' = "accepted" /\ UNCHANGED budget
+  \/ /\ cver \in ServerVersions /\ (NeedRetry => retryUsed) /\ \E s \in IDs : DeliverServerPacket(s, "initial") /\ sstate' = "accepted" /\ UNCHANGED budget
 Attacker ==
   /\ AttackerOn /\ budget > 0 /\ budget' = budget - 1 /\ UNCHANGED sstate
   /\ \/ \E vs \in SUBSET {1, 2, 7} : DeliverVN(vs)
